@@ -815,6 +815,10 @@ class Signature:
         bound_args: BoundArgs = {}
         star_args_consumed = False
         star_kwargs_consumed = False
+        # Whether some parameter (**kwargs, ..., a ParamSpec) takes every keyword argument
+        # that no named parameter consumed. Consuming the caller's **kwargs for a named
+        # parameter does not make other explicit keywords acceptable.
+        extra_keywords_absorbed = False
         param_spec_consumed = False
 
         for param in self.parameters.values():
@@ -1021,6 +1025,7 @@ class Signature:
                 bound_args[param.name] = position, Composite(star_args_value)
             elif param.kind is ParameterKind.VAR_KEYWORD:
                 star_kwargs_consumed = True
+                extra_keywords_absorbed = True
                 items = {}
                 for key, (
                     definitely_provided,
@@ -1053,10 +1058,12 @@ class Signature:
                 # just take it all
                 star_args_consumed = True
                 star_kwargs_consumed = True
+                extra_keywords_absorbed = True
                 param_spec_consumed = True
                 val = AnyValue(AnySource.ellipsis_callable)
                 bound_args[param.name] = UNKNOWN, Composite(val)
             elif param.kind is ParameterKind.PARAM_SPEC:
+                extra_keywords_absorbed = True
                 if actual_args.param_spec is not None:
                     bound_args[param.name] = KWARGS, Composite(actual_args.param_spec)
                     param_spec_consumed = True
@@ -1111,7 +1118,7 @@ class Signature:
                 ctx,
             )
             return None
-        if not star_kwargs_consumed:
+        if not extra_keywords_absorbed:
             extra_kwargs = set(actual_args.keywords) - keywords_consumed
             if extra_kwargs:
                 extra_kwargs_str = ", ".join(map(repr, extra_kwargs))
